@@ -106,7 +106,7 @@ func runC08(rc *RunCtx) (*Violation, error) {
 		c := c
 		cfg := DriverCfg{Buckets: []string{fmt.Sprintf("bucket-%d", c)}, Keys: []string{"k1", "k2", "k3"}, Classes: classes,
 			WVersioning: 1, WPut: 10, WGet: 2, WDelete: 5, WDeleteVersion: 2, WCopy: 6, WAppend: 2, WMultipart: 10, WTransition: 4,
-			BodyPool: pool, SlowBodies: true,
+			BodyPool: pool, SlowBodies: true, SharedNamespace: true,
 			Oracles: map[string]bool{OContent: true}}
 		d := NewDriver(rc, w.Storage, cfg)
 		d.Think = func() time.Duration { return time.Duration(1+g.Int(300)) * time.Millisecond }
